@@ -716,6 +716,110 @@ fn alias_error_family(acc: &mut Acc, lays: &[Layout]) {
     }
 }
 
+
+#[derive(Debug, serde::Deserialize)]
+#[allow(dead_code)]
+struct ContAliasSeq {
+    l: Vec<String>,
+    m: Vec<i64>,
+}
+#[derive(Debug, serde::Deserialize)]
+#[allow(dead_code)]
+struct ContAliasMap {
+    l: std::collections::BTreeMap<String, String>,
+    m: std::collections::BTreeMap<String, i64>,
+}
+#[derive(Debug, serde::Deserialize)]
+#[allow(dead_code)]
+struct ContAliasNested {
+    l: Vec<Vec<String>>,
+    m: Vec<Vec<i64>>,
+}
+#[derive(Debug, serde::Deserialize)]
+#[allow(dead_code)]
+struct KeyAlias {
+    k: String,
+    m: std::collections::BTreeMap<i64, i64>,
+}
+
+/// errors at a node *inside* an aliased container, and at a mapping key written as an alias: Error::locations()
+/// must be (the alias token, the failing node / the anchored key)
+fn alias_container_and_key_family(acc: &mut Acc, lays: &[Layout]) {
+    let p = Node::plain;
+    for (li, lay) in lays.iter().enumerate() {
+        // (document, pre-order index of the alias token, pre-order index of the failing definition node, reader)
+        type Reader = fn(&str) -> Result<Result<String, serde_saphyr::Error>, String>;
+        let cases: Vec<(&str, Node, usize, usize, Reader)> = vec![
+            (
+                "element of an aliased sequence",
+                Node::map(vec![(p("l"), Node::seq(vec![Node::scalar("1", Style::Double), p("bad")]).anchored("ä")), (p("m"), Node::alias("ä"))]),
+                6,
+                4,
+                |t| guarded(|| serde_saphyr::from_str::<ContAliasSeq>(t).map(|v| format!("{:?}", v))),
+            ),
+            (
+                "value of an aliased mapping",
+                Node::map(vec![(p("l"), Node::map(vec![(p("x"), p("bad"))]).anchored("ä")), (p("m"), Node::alias("ä"))]),
+                6,
+                4,
+                |t| guarded(|| serde_saphyr::from_str::<ContAliasMap>(t).map(|v| format!("{:?}", v))),
+            ),
+            (
+                "element two levels inside an aliased sequence",
+                Node::map(vec![(p("l"), Node::seq(vec![Node::seq(vec![p("bad")])]).anchored("ä")), (p("m"), Node::alias("ä"))]),
+                6,
+                4,
+                |t| guarded(|| serde_saphyr::from_str::<ContAliasNested>(t).map(|v| format!("{:?}", v))),
+            ),
+            (
+                "mapping key written as an alias",
+                Node::map(vec![(p("k"), p("name").anchored("ä")), (p("m"), Node::map(vec![(Node::alias("ä"), p("1"))]))]),
+                5,
+                2,
+                |t| guarded(|| serde_saphyr::from_str::<KeyAlias>(t).map(|v| format!("{:?}", v))),
+            ),
+        ];
+        for (name, doc, use_idx, def_idx, read) in cases {
+            let r = render(&doc, lay);
+            if validate(&doc, &r.text) != Validity::Ok {
+                acc.generator_rejected += 1;
+                continue;
+            }
+            acc.evaluations += 1;
+            acc.execs += 1;
+            acc.nontrivial += 1;
+            acc.class("alias_container_and_key_family", 1);
+            let use_pos = r.pos_of(r.nodes[use_idx].content);
+            let def_pos = r.pos_of(r.nodes[def_idx].content);
+            let fail = |acc: &mut Acc, clause: &str, detail: String| {
+                let key = format!("{}|{}|layout{}", clause, name, li);
+                acc.add_violation(key, clause, detail, json!({"text": r.text, "layout": li}), json!({}));
+            };
+            match read(&r.text) {
+                Err(pn) => fail(acc, "panic", pn),
+                Ok(Ok(v)) => fail(acc, "error_not_raised", format!("{:?} gave {}", r.text, v)),
+                Ok(Err(e)) => {
+                    acc.compared += 1;
+                    match e.locations() {
+                        None => fail(acc, "alias_error_without_locations", format!("{:?}: {}", r.text, e)),
+                        Some(ls) => {
+                            if consistent(&ls.reference_location, &r.text).is_err() || consistent(&ls.defined_location, &r.text).is_err() {
+                                fail(acc, "location_inconsistent", format!("{:?}: {:?}", r.text, ls));
+                            } else if !at(&ls.reference_location, use_pos) || !at(&ls.defined_location, def_pos) {
+                                fail(
+                                    acc,
+                                    "alias_error_locations",
+                                    format!("{:?} ({}): alias at {}:{}, failing node at {}:{}, but the error reports use={:?} def={:?}", r.text, name, use_pos.line, use_pos.col, def_pos.line, def_pos.col, coords(&ls.reference_location), coords(&ls.defined_location)),
+                                );
+                            }
+                        }
+                    }
+                }
+            }
+        }
+    }
+}
+
 pub fn run(ctx: &Ctx) -> i32 {
     let lays = layouts();
     let p = C16 { layouts: lays.clone() };
@@ -816,6 +920,7 @@ pub fn run(ctx: &Ctx) -> i32 {
         acc = acc.merge(a);
     }
     alias_error_family(&mut acc, &lays);
+    alias_container_and_key_family(&mut acc, &lays);
     acc.samples.truncate(0);
     let sample = Node::map(vec![(Node::plain("é"), Node::seq(vec![Node::scalar("q\"é", Style::Double).anchored("ä"), Node::alias("ä")]))]);
     acc.samples.push(json!({"tree": sample.show(), "text": render(&sample, &lays[13]).text, "layout": lays[13]}));
